@@ -208,9 +208,15 @@ impl<Pk: BlsPublicKeyType> FromJwk for BlsKeyPair<Pk> {
     }
 }
 
-#[derive(Clone, Debug, PartialEq, Eq, Zeroize)]
+#[derive(Clone, PartialEq, Eq, Zeroize)]
 #[repr(transparent)]
 pub(crate) struct BlsSecretKey(Scalar);
+
+impl Debug for BlsSecretKey {
+    fn fmt(&self, f: &mut Formatter<'_>) -> fmt::Result {
+        f.debug_tuple("BlsSecretKey").field(&"<secret>").finish()
+    }
+}
 
 impl BlsSecretKey {
     fn generate(mut rng: impl KeyMaterial) -> Result<Self, Error> {
